@@ -27,6 +27,9 @@ type c14Plan struct {
 	ReqLen int `json:"req_len,omitempty"`
 	J      int `json:"j,omitempty"`
 	Accept int `json:"accept,omitempty"`
+	// DeadReads (write failures): the peer has closed its side before the request, and the client only sends
+	// after the reader goroutine has had time to queue more errors than the connection's error queue holds.
+	DeadReads bool `json:"dead_reads,omitempty"`
 }
 
 type c14 struct{}
@@ -128,6 +131,7 @@ func (c14) Gen(r *Rand, idx int, tier string) interface{} {
 	npk := p.ReqLen/504 + 1
 	p.J = r.Intn(npk)
 	p.Accept = Pick(r, []int{0, 0, 1, 7, 8, 9, 100, 511})
+	p.DeadReads = r.Pct(35)
 	return p
 }
 func (c14) Decode(raw json.RawMessage) (interface{}, error) {
@@ -188,9 +192,9 @@ func (c14) Run(plan interface{}, schedSeed uint64, replay []simrt.Choice, lenien
 	case "timeout":
 		term = simrt.TermTimeout
 	}
-	cfg := simrt.Config{Seed: schedSeed, Strategy: "uniform", ColdQueueLocks: true, EOFReadCostMs: p.EOFCostMs, MaxSteps: 80000, Replay: replay, Lenient: lenient, KeepLog: keepLog}
+	cfg := simrt.Config{Seed: schedSeed, Strategy: "uniform", ColdQueueLocks: true, EOFReadCostMs: p.EOFCostMs, MaxSteps: 250000, Replay: replay, Lenient: lenient, KeepLog: keepLog}
 	got := runResp(cfg, respDelivery{Packets: pk, TermAt: p.K, TermKind: term, TermWithData: withData, Async: p.Async},
-		respClient{QueueSize: 100, ReadTimeoutS: p.ReadTimeoutS, DrainFor: drain, ReadSizes: c14ReadSizes(p.ReadSize, len(wire))})
+		respClient{QueueSize: 100, ReadTimeoutS: p.ReadTimeoutS, DrainFor: drain, ReadSizes: c14ReadSizes(p.ReadSize, len(wire)), MaxErrs: 10})
 	out := got.Out
 	StdOutcome(v, base.Out)
 	StdOutcome(v, out)
@@ -303,7 +307,7 @@ func (c14) Run(plan interface{}, schedSeed uint64, replay []simrt.Choice, lenien
 			cfg2 := cfg
 			cfg2.Replay, cfg2.Lenient, cfg2.KeepLog = out.Tape, false, true
 			again := runResp(cfg2, respDelivery{Packets: pk, TermAt: p.K, TermKind: term, TermWithData: withData, Async: p.Async},
-				respClient{QueueSize: 100, ReadTimeoutS: p.ReadTimeoutS, DrainFor: drain, ReadSizes: c14ReadSizes(p.ReadSize, len(wire))})
+				respClient{QueueSize: 100, ReadTimeoutS: p.ReadTimeoutS, DrainFor: drain, ReadSizes: c14ReadSizes(p.ReadSize, len(wire)), MaxErrs: 10})
 			pkgSends, errSend := 0, -1
 			for _, e := range again.Out.Log {
 				if e.Op != "send" && !(e.Op == "select" && strings.Contains(e.Info, "(send)")) {
@@ -364,6 +368,13 @@ func (c14) Run(plan interface{}, schedSeed uint64, replay []simrt.Choice, lenien
 				v.Violate("later-receive-blocked", "a receive after the first error blocked until its own deadline", "%s: the first error came at t=%v, a later receive only returned when the consumer's context expired at t=%v (read timeout %ds)", where, firstErr.Now, r.Now, p.ReadTimeoutS)
 				break
 			}
+			// each receive is called when the previous one returned: it must return within the bound as well
+			if seenFirst && i > 0 && r.Err != "" {
+				if gap := r.Now - got.Recs[i-1].Now; gap > time.Duration(p.ReadTimeoutS)*time.Second+2*cost {
+					v.Violate("later-receive-late", "a receive after the first error took longer than the read timeout", "%s: receive #%d after the failure was called at t=%v and returned at t=%v (read timeout %ds, poll cost %v)", where, i, got.Recs[i-1].Now, r.Now, p.ReadTimeoutS, cost)
+					break
+				}
+			}
 		}
 	}
 	if p.K > 0 && p.K < len(wire) {
@@ -417,7 +428,7 @@ func c14RunWrite(p *c14Plan, schedSeed uint64, replay []simrt.Choice, lenient, k
 	var recs []PkgRec
 	var connErr, second string
 	var secondAt time.Duration
-	closed := false
+	closed, firstDone := false, false
 	out := s.Run(func() {
 		conn, err := tds.NewConn(context.Background(), MkInfo(100, p.ReadTimeoutS, false))
 		if err != nil {
@@ -429,10 +440,17 @@ func c14RunWrite(p *c14Plan, schedSeed uint64, replay []simrt.Choice, lenient, k
 			connErr = err.Error()
 			return
 		}
+		if p.DeadReads {
+			// the connection is dead in both directions: the reader fills the error queue while nobody receives
+			pr.Conn.End(simrt.TermEOF, false)
+			s.Fault("close-eof")
+			simrt.Sleep(time.Duration(15*p.ReadTimeoutS)*time.Second + 15*time.Duration(p.EOFCostMs)*time.Millisecond)
+		}
 		ctx, cancel := simrt.WithTimeout(context.Background(), 30*time.Second)
 		defer cancel()
 		cmd := strings.Repeat("x", p.ReqLen)
 		sendErr = ch.SendPackage(ctx, &tds.LanguagePackage{Cmd: cmd})
+		firstDone = true
 		simrt.Sleep(time.Second)
 		for i := 0; i < 20; i++ {
 			pkg, err := ch.NextPackage(ctx, false)
@@ -461,11 +479,18 @@ func c14RunWrite(p *c14Plan, schedSeed uint64, replay []simrt.Choice, lenient, k
 		return v, out
 	}
 	where := fmt.Sprintf("write %d of a %d-byte request accepts %d bytes and fails", p.J, p.ReqLen, p.Accept)
+	if p.DeadReads {
+		where += " (peer closed long before: the error queue is full)"
+		v.Probe("write-fault-on-dead-connection")
+	}
 	for _, c := range out.Crashes {
 		v.Violate("panic", "panic "+CrashSig(c), "%s: task %s panicked: %s\n%s", where, c.Task, c.Value, c.Stack)
 	}
 	fired := out.FaultFired["write-error"] > 0
-	if fired && sendErr == nil {
+	if !firstDone && !out.Budget {
+		v.Violate("blocked", "request with a failing write never returned "+ParkSig(out, Sites), "%s: SendPackage did not return although its context expired (%v)", where, out.Parked)
+	}
+	if fired && sendErr == nil && firstDone {
 		v.Violate("write-error-swallowed", "write error not reported", "%s: SendPackage returned nil", where)
 	}
 	if fired && len(recs) > 0 {
